@@ -184,8 +184,8 @@ def build(tier, seed):
         "copy.copy(op) returns a new object; hasattr(op, 'queue') is an arbitrary boolean of the object"]
     plan.dropped = ["docstrings, annotations, exception messages, __repr__, capture-enabled branches (_capture_apply, pop_op_eqns)"]
     plan.size_bounds = []
-    plan.unverified = ["operators consumed by wrapper constructors (adjoint, ctrl, pow, arithmetic) are recorded only through their wrapper "
-                       "(spread over the op_math constructors)", "qscript.from_queue / process_queue (moved out of queuing.py)",
+    plan.unverified = ["operators consumed by wrapper constructors: proved only for the adjoint / ctrl qfunc wrappers and create_controlled_op2; pow, "
+                       "prod, sum, s_prod, exp, create_controlled_op and the SymbolicOp / CompositeOp queue methods only through bounded native scenarios", "qscript.from_queue / process_queue (moved out of queuing.py)",
                        "metadata (kwargs) stored with each queued object; AnnotatedQueue.queue / items (inherited OrderedDict iteration)",
                        "Operator.queue implementations called by apply (only the call with the copy and the given context is checked)",
                        "program capture mode", "multi-threaded use of the global stack"]
@@ -833,6 +833,302 @@ def build(tier, seed):
                                                                              z3.Extract(app, 0, z3.Length(k_)) == k_))),
         ("append-present-object-changes-nothing", [x_], z3.Implies(has(k_, x_), app == k_)),
     ]
+
+    # ================================================================================================ (3) QuantumTape.__enter__ / __exit__
+    # tape/tape.py: the tape is itself a recording queue.  QueuingManager's methods are events here (their effect is level (1)); building the
+    # tape from its queue (_process_queue) may return or raise.  On EVERY exit path of __exit__ -- also when _process_queue raises -- the
+    # context stack has been popped exactly once and the lock released exactly once ("the context stack is restored after exceptions").
+    from vf.pyvc.engine import Model as _Model
+    TAPE = "pennylane/tape/tape.py"
+    tcell = {}
+
+    def tev(name):
+        def fn(it, args, kw):
+            it.ctx.ghost["events"].append((name,) + tuple(args))
+            return None
+        return fn
+
+    def mc_process_queue(it, args, kwargs):
+        it.ctx.ghost["events"].append(("process_queue", args[0]))
+        if it.ctx.branch(z3.Bool(it.ctx.fresh_name("process_queue_raises"))):
+            raise RaiseExc("ValueError")
+        return None
+    wt = World(TAPE, classes={"QuantumTape": {"_trainable_params": NoneV}}, modular={"QuantumTape._process_queue": mc_process_queue},
+               extra_builtins={"QueuingManager.append": tev("append"), "QueuingManager.add_active_queue": tev("push"),
+                               "QueuingManager.remove_active_queue": tev("pop"), "method:acquire": tev("acquire"), "method:release": tev("release")})
+
+    def tape_ghost(ctx, a):
+        tcell["ctx"] = ctx
+        ctx.class_state = {("QuantumTape", "_lock"): LOCK}
+        ctx.ghost["events"] = []
+
+    def tape_native(invalid):
+        def gen(rng, m):
+            import random
+            inv = invalid if rng is None else (rng.random() < 0.7)
+            return dict(m, self=Holder(NState(), inv))
+        return gen
+
+    def tape_enter_call(mod, args):
+        import pennylane as qp
+        h = args["self"]
+        outer = qp.queuing.AnnotatedQueue()
+        with outer:
+            tape = mod.QuantumTape()
+            r = mod.QuantumTape.__enter__(tape)
+            h.obs = dict(stack=list(qp.QueuingManager._active_contexts), outer=outer, tape=tape, queued=list(outer.queue), ret=r)
+            qp.QueuingManager.remove_active_queue()
+            mod.QuantumTape._lock.release()
+        return r
+
+    def post_tape_enter(o, r, nw):
+        if isinstance(nw.self, Holder):
+            ob = nw.self.obs
+            return ob["ret"] is ob["tape"] and ob["stack"] == [ob["outer"], ob["tape"]] and ob["queued"] == [ob["tape"]]
+        ev = tcell["ctx"].ghost["events"]
+        return len(ev) == 3 and ev[0] == ("acquire", LOCK) and ev[1][0] == "append" and ev[1][1] is nw.self and ev[2][0] == "push" and \
+            ev[2][1] is nw.self and r is nw.self
+    contracts.append(FnContract(wt, "QuantumTape.__enter__", [
+        Case("lock, queue itself in the enclosing context, then push", {"self": RecT("QuantumTape")}, ghost=tape_ghost, ensures=post_tape_enter,
+             native_gen=tape_native(False), native_call=tape_enter_call)]))
+
+    def tape_exit_call(mod, args):
+        import pennylane as qp
+        h = args["self"]
+        outer = qp.queuing.AnnotatedQueue()
+        h.obs = None
+        with outer:
+            tape = mod.QuantumTape()
+            mod.QuantumTape.__enter__(tape)
+            qp.X(0)
+            if h.value:          # an operator after a measurement: building the tape from this queue raises ValueError
+                qp.expval(qp.Z(0))
+                qp.RX(0.1, 0)
+            try:
+                return mod.QuantumTape.__exit__(tape, None, None, None)
+            finally:
+                stack = list(qp.QueuingManager._active_contexts)
+                free = mod.QuantumTape._lock.acquire(blocking=False)
+                owned_depth = 0
+                if free:
+                    mod.QuantumTape._lock.release()
+                h.obs = dict(stack_ok=stack == [outer], stack=[type(x).__name__ for x in stack])
+                while qp.QueuingManager._active_contexts and qp.QueuingManager._active_contexts[-1] is not outer:
+                    qp.QueuingManager.remove_active_queue()          # clean up for the harness
+
+    def tape_exit_ok(o, nw):
+        if isinstance(nw.self, Holder):
+            return nw.self.obs is not None and nw.self.obs["stack_ok"]
+        ev = tcell["ctx"].ghost["events"]
+        names = [e[0] for e in ev]
+        return names.count("pop") == 1 and names.count("release") == 1 and names.count("acquire") == 0 and names.count("push") == 0 and \
+            all(e[1] == LOCK for e in ev if e[0] == "release")
+    ex_case = Case("every exit path pops the stack and releases the lock once", {"self": RecT("QuantumTape"), "exception_type": NoneV,
+                                                                                "exception_value": NoneV, "traceback": NoneV},
+                   ghost=tape_ghost, ensures=lambda o, r, nw: And(r is None, tape_exit_ok(o, nw)), raises={"ValueError": lambda o: True},
+                   native_gen=tape_native(True), native_call=tape_exit_call)
+    ex_case.exc_ensures = lambda name, o, nw: tape_exit_ok(o, nw)
+    contracts.append(FnContract(wt, "QuantumTape.__exit__", [ex_case]))
+
+    # ================================================================================================ (4) wrapper constructors dequeue what they consume
+    # "operators consumed by wrapper constructors (adjoint, ctrl, pow, arithmetic) are recorded only through their wrapper".
+    ADJ, CTL = "pennylane/ops/op_math/adjoint.py", "pennylane/ops/op_math/controlled.py"
+    OPB = "pennylane/core/operator/base.py"
+    wcell = {}
+
+    class Script(_Model):
+        def __init__(self, ops):
+            self.operations, self.measurements = PyList(ops), PyList([])
+
+    def wrap_ghost(ctx, a):
+        wcell["ctx"] = ctx
+        ctx.ghost["events"] = []
+
+    def b_make_qscript(it, args, kw):
+        fn = args[0]
+
+        class _Run(_Model):
+            def vf_call(self, it2, a2, k2):
+                it2.ctx.ghost["events"].append(("run-qfunc", fn, tuple(a2), dict(k2)))
+                return Script([Rec(wop.classes["Operator"], {"_id": 900}), Rec(wop.classes["Operator"], {"_id": 901})])
+        return _Run()
+
+    def leaves_of(x, out):
+        """assumed contract of qp.pytrees.flatten with is_leaf = isinstance(., Operator): leaves of nested tuples / lists / dicts"""
+        if isinstance(x, (tuple, list)):
+            for y in x:
+                leaves_of(y, out)
+        elif isinstance(x, PyList):
+            for y in x.items:
+                leaves_of(y, out)
+        elif isinstance(x, dict):
+            for y in x.values():
+                leaves_of(y, out)
+        else:
+            out.append(x)
+        return out
+
+    def b_flatten(it, args, kw):
+        return (PyList(leaves_of(args[0], [])), None)
+
+    def wev(name, ret=None):
+        def fn(it, args, kw):
+            it.ctx.ghost["events"].append((name,) + tuple(args))
+            return ret(it, args, kw) if ret else None
+        return fn
+
+    def token(label):
+        return lambda it, args, kw: Rec(wop.classes["Operator"], {"_id": label})
+    wop = World(ADJ, classes={"Operator": (OPB, {"_id": NoneV})}, functions=["_adjoint_transform", "_make_adjoint_op", "_single_op_eager"],
+                modular={"_make_adjoint_op": wev("make-adjoint", token(950)), "_single_op_eager": wev("eager-adjoint", token(951))},
+                extra_builtins={"qp.capture.enabled": lambda it, a, k: False, "qp.tape.make_qscript": b_make_qscript, "qp.pytrees.flatten": b_flatten,
+                                "qp.QueuingManager.remove": wev("remove"), "reversed": lambda it, a, k: PyList(list(reversed(it.iter_concrete(a[0]))))})
+    OPR = RecT("Operator")
+
+    def qfunc_wrapper_post(build_call, op_params, native_name):
+        """the wrapper dequeues exactly the Operator instances among its positional AND keyword arguments (also inside lists / dicts)"""
+        def post(o, r, nw):
+            if not hasattr(r, "interp"):
+                return True          # native side: see the bounded stand-ins below
+            it = Interp(wcell["ctx"], None)
+            args, kwargs, expect = build_call(nw)
+            it.call(r, args, kwargs)
+            removed = [e[1] for e in wcell["ctx"].ghost["events"] if e[0] == "remove"]
+            return len(removed) == len(expect) and all(any(x is y for y in removed) for x in expect) and \
+                all(isinstance(x, Rec) and x.cls.name == "Operator" for x in removed)
+        return post
+    from vf.pyvc.interp import Interp
+    QFUNC = T("const", FuncRef("builtin", "user_qfunc"))
+
+    class NSobj:
+        def __init__(self, d):
+            self.__dict__.update(d)
+
+    def call_shapes(nw):
+        a, b, c = nw.op_a, nw.op_b, nw.op_c
+        return ([0.3, a], {"gate": b, "ops": PyList([c, 7]), "scale": 2}, [a, b, c])
+
+    def ops_ghost(ctx, a):
+        wrap_ghost(ctx, a)
+        wcell["ops"] = {k: fresh(ctx, OPR, k) for k in ("op_a", "op_b", "op_c")}
+    contracts.append(FnContract(wop, "_adjoint_transform", [
+        Case(f"lazy={lazy}: operators passed positionally, by keyword and inside a keyword list are dequeued",
+             {"qfunc": QFUNC, "lazy": T("const", lazy)}, ghost=ops_ghost,
+             ensures=lambda o, r, nw: qfunc_wrapper_post(lambda _nw: call_shapes(NSobj(wcell["ops"])), None, "adjoint")(o, r, nw),
+             native_call=lambda mod, args: None, native_gen=lambda rng, m: m)
+        for lazy in (True, False)]))
+
+    # ---- _ctrl_transform.<locals>.wrapper
+    wctl = World(CTL, classes={"Operator": (OPB, {"_id": NoneV}), "Allocate": ("pennylane/allocation.py", {}), "Deallocate": ("pennylane/allocation.py", {})},
+                 functions=["_ctrl_transform", "create_controlled_op2"],
+                 extra_builtins={"qp.capture.enabled": lambda it, a, k: False, "qp.tape.make_qscript": b_make_qscript, "qp.pytrees.flatten": b_flatten,
+                                 "qp.QueuingManager.remove": wev("remove"), "qp.QueuingManager.recording": lambda it, a, k: True,
+                                 "ctrl": wev("ctrl", token(960)), "qp.apply": wev("apply"), "qp.X": wev("X", token(961)),
+                                 "len": lambda it, a, k: (len(a[0].operations.items) if isinstance(a[0], Script) else it.b_len(a, k, None))})
+
+    ctl_ghost = ops_ghost
+    contracts.append(FnContract(wctl, "_ctrl_transform", [
+        Case("operators passed positionally, by keyword and inside a keyword list are dequeued",
+             {"op": QFUNC, "control": T("const", (5,)), "control_values": T("const", (True,)), "work_wires": NoneV, "one_controlled": T("const", False)},
+             ghost=ctl_ghost, ensures=lambda o, r, nw: qfunc_wrapper_post(lambda _nw: call_shapes(NSobj(wcell["ops"])), None, "ctrl")(o, r, nw),
+             native_call=lambda mod, args: None, native_gen=lambda rng, m: m)]))
+
+    # ---- create_controlled_op2: the consumed operator is dequeued on EVERY path (directly, or as the base handed to ControlledOp2, whose
+    # constructor dequeues its base -- controlled2.py, assumed)
+    C2_SRC = "class Controlled2:\n    pass\n"
+    W_SRC = "class AbstractWires:\n    def __len__(self):\n        return self.n\n"
+
+    def b_dispatch(it, args, kw):
+        if it.ctx.branch(z3.Bool(it.ctx.fresh_name("custom_controlled_op_registered"))):
+            return Rec(wc2.classes["Operator"], {"_id": 970})
+        return FuncRef("builtin", "NotImplemented")
+    wc2 = World(CTL, classes={"Operator": (OPB, {"_id": NoneV})},
+                stubs={"Controlled2": (C2_SRC, {"base": NoneV, "control_wires": NoneV, "control_values": NoneV, "work_wires": NoneV,
+                                                "work_wire_type": NoneV}), "AbstractWires": (W_SRC, {"n": Int})},
+                functions=["create_controlled_op2"],
+                extra_builtins={"qp.QueuingManager.remove": wev("remove"), "pop_op_eqns": lambda it, a, k: None, "custom_ctrl_dispatch": b_dispatch,
+                                "resolve_work_wire_type": lambda it, a, k: "borrowed", "_resolve_ctrl_values": lambda it, a, k: None,
+                                "_concat_wires": lambda it, a, k: a[0], "ctrl": wev("ctrl", token(971)), "ControlledOp2": wev("ControlledOp2", token(972))})
+    AW = RecT("AbstractWires")
+
+    def post_c2(kind):
+        def post(o, r, nw):
+            if not isinstance(nw.op, Rec):
+                return True
+            ev = wcell["ctx"].ghost["events"]
+            removed = [e for e in ev if e[0] == "remove" and e[1] is nw.op]
+            as_base = [e for e in ev if e[0] == "ControlledOp2" and e[1] is nw.op]
+            other_removed = [e for e in ev if e[0] == "remove" and e[1] is not nw.op]
+            return (bool(removed) or bool(as_base)) and not other_removed
+        return post
+    c2_op = {"plain operator": OPR,
+             "already controlled operator": T("build", lambda ctx, name: Rec(wc2.classes["Controlled2"], {
+                 "base": fresh(ctx, OPR, "base"), "control_wires": fresh(ctx, AW, "cw"), "control_values": None, "work_wires": fresh(ctx, AW, "ww"),
+                 "work_wire_type": "borrowed"}), gen=lambda rng: None)}
+    for lab, opt in c2_op.items():
+        contracts.append(FnContract(wc2, "create_controlled_op2", [
+            Case(lab, {"op": opt, "control_wires": AW, "control_values": NoneV, "work_wires": AW, "work_wire_type": T("const", "borrowed")},
+                 ghost=wrap_ghost, ensures=post_c2(lab), native_call=lambda mod, args: None, native_gen=lambda rng, m: dict(m, op=None))]))
+
+    # ---- bounded native stand-ins (labelled bounded): every wrapper constructor inside a recording context, operands passed positionally / by
+    # keyword / nested in a list / already wrapped; afterwards no consumed operand is left in the recording and the result is recorded
+    def wrapper_scenarios():
+        import pennylane as qp
+
+        def sub(x, g=None, ops=()):          # a user subroutine that receives operators as arguments
+            qp.RX(x, 0)
+        sc = {}
+        sc["adjoint(op)"] = lambda: (lambda a: ([a], [qp.adjoint(a)]))(qp.S(0))
+        sc["adjoint(op, lazy=False)"] = lambda: (lambda a: ([a], [qp.adjoint(a, lazy=False)]))(qp.S(0))
+        sc["adjoint(qfunc)(x, op) positional operand"] = lambda: (lambda a: ([a], [qp.adjoint(sub)(0.3, a)]))(qp.Y(1))
+        sc["adjoint(qfunc)(x, g=op) keyword operand"] = lambda: (lambda a: ([a], [qp.adjoint(sub)(0.3, g=a)]))(qp.Y(1))
+        sc["adjoint(qfunc)(x, ops=[op, op]) operands in a keyword list"] = lambda: (lambda a, b: ([a, b], [qp.adjoint(sub)(0.3, ops=[a, b])]))(qp.X(2), qp.Y(2))
+        sc["ctrl(op, control)"] = lambda: (lambda a: ([a], [qp.ctrl(a, 1)]))(qp.S(0))
+        sc["ctrl(CRX, control): already controlled operand"] = lambda: (lambda a: ([a], [qp.ctrl(a, 0)]))(qp.CRX(0.3, [1, 2]))
+        sc["ctrl(ctrl(S, 2), 0): nested ctrl"] = lambda: (lambda a: (lambda inner: ([a, inner], [qp.ctrl(inner, 0)]))(qp.ctrl(a, 2)))(qp.S(3))
+        sc["ctrl(CSWAP, control)"] = lambda: (lambda a: ([a], [qp.ctrl(a, 3)]))(qp.CSWAP([0, 1, 2]))
+        sc["ctrl(qfunc, control)(x, g=op) keyword operand"] = lambda: (lambda a: ([a], []) if qp.ctrl(sub, control=3)(0.3, g=a) is not None or True else None)(qp.Y(1))
+        sc["pow(op, 2)"] = lambda: (lambda a: ([a], [qp.pow(a, 2)]))(qp.S(0))
+        sc["pow(op, 2, lazy=False)"] = lambda: (lambda a: ([a], [qp.pow(a, 2, lazy=False)]))(qp.T(0))
+        sc["prod(a, b)"] = lambda: (lambda a, b: ([a, b], [qp.prod(a, b)]))(qp.X(0), qp.Y(1))
+        sc["a @ b"] = lambda: (lambda a, b: ([a, b], [a @ b]))(qp.X(0), qp.Y(1))
+        sc["sum(a, b)"] = lambda: (lambda a, b: ([a, b], [qp.sum(a, b)]))(qp.X(0), qp.Y(1))
+        sc["a + b"] = lambda: (lambda a, b: ([a, b], [a + b]))(qp.X(0), qp.Y(1))
+        sc["s_prod(2.0, a)"] = lambda: (lambda a: ([a], [qp.s_prod(2.0, a)]))(qp.X(0))
+        sc["2.0 * a"] = lambda: (lambda a: ([a], [2.0 * a]))(qp.X(0))
+        sc["exp(a, 1j)"] = lambda: (lambda a: ([a], [qp.exp(a, 1j)]))(qp.X(0))
+        sc["prod(adjoint(a), ctrl(b, 2)): nested wrappers"] = lambda: (lambda a, b: (lambda x, y: ([a, b, x, y], [qp.prod(x, y)]))(qp.adjoint(a), qp.ctrl(b, 2)))(qp.S(0), qp.T(1))
+        return sc
+    SCENARIO_NAMES = ["adjoint(op)", "adjoint(op, lazy=False)", "adjoint(qfunc)(x, op) positional operand", "adjoint(qfunc)(x, g=op) keyword operand",
+                      "adjoint(qfunc)(x, ops=[op, op]) operands in a keyword list", "ctrl(op, control)", "ctrl(CRX, control): already controlled operand",
+                      "ctrl(ctrl(S, 2), 0): nested ctrl", "ctrl(CSWAP, control)", "ctrl(qfunc, control)(x, g=op) keyword operand", "pow(op, 2)",
+                      "pow(op, 2, lazy=False)", "prod(a, b)", "a @ b", "sum(a, b)", "a + b", "s_prod(2.0, a)", "2.0 * a", "exp(a, 1j)",
+                      "prod(adjoint(a), ctrl(b, 2)): nested wrappers"]
+    from vf.common import Obligation, Outcome, DISCHARGED, REFUTED
+
+    def scenario_obligation(name):
+        def fn():
+            import pennylane as qp
+            build_ = wrapper_scenarios()[name]
+            with qp.queuing.AnnotatedQueue() as q:
+                qp.H(5)
+                consumed, results = build_()
+                qp.H(6)
+            queue = list(q.queue)
+            results = [r for x in results for r in (x if isinstance(x, (list, tuple)) else [x])]
+            left = [repr(c) for c in consumed if any(c is o for o in queue)]
+            missing = [repr(r) for r in results if not any(r is o for o in queue)]
+            shown = [repr(o) for o in queue]
+            if left or missing:
+                return Outcome(REFUTED, "native-standin", f"consumed operands still recorded: {left}; results not recorded: {missing}",
+                               witness=dict(scenario=name, recorded=shown),
+                               replay=dict(confirmed=True, observed=shown, expected="only the wrapper result(s) between H(5) and H(6)", inputs=name))
+            return Outcome(DISCHARGED, "native-standin", f"recorded {shown}", extra=dict(bounded=True))
+        return Obligation(f"{PID}/op_math:wrapper constructors/native: {name}", "bounded", fn, bounded=True, timeout=180,
+                          sample="queue contents after constructing the wrapper inside an AnnotatedQueue")
+    for nm_ in SCENARIO_NAMES:
+        plan.add(scenario_obligation(nm_))
+    plan.size_bounds.append("wrapper constructors: 20 native scenarios (bounded stand-in); E1 contracts for the adjoint / ctrl qfunc wrappers and create_controlled_op2")
 
     for fc in contracts:
         plan.fn_under_contract(fc.world.file, fc.qualname)
